@@ -24,8 +24,10 @@ use std::sync::Arc;
 #[derive(Clone, Debug, Serialize, Deserialize, PartialEq)]
 pub enum Op {
     /// announce from host `h` (family by `v6`) with announced `port`
-    Ann { t: u8, v6: bool, h: u16, port: u16, ev: u8, left: i64, want: i32, pid: u8 },
-    Scr { v6: bool, ts: Vec<u8> },
+    /// `ac` refines an IPv6 source: 0 = 2001:db8::/32, 1 = low address in ::/96 (not mapped),
+    /// 2 = IPv4-mapped ::ffff:10.0.x.y (the same host as plain IPv4 host `h`)
+    Ann { t: u8, v6: bool, #[serde(default)] ac: u8, h: u16, port: u16, ev: u8, left: i64, want: i32, pid: u8 },
+    Scr { v6: bool, #[serde(default)] ac: u8, ts: Vec<u8> },
     Clean,
     /// advance the clock by whole seconds
     Adv { secs: u64 },
@@ -53,11 +55,30 @@ pub fn info_hash(t: u8) -> [u8; 20] {
 }
 
 pub fn host_ip(v6: bool, h: u16) -> IpAddr {
-    if v6 {
-        IpAddr::V6(Ipv6Addr::new(0x2001, 0xdb8, 0, 0, 0, 0, 1, h))
-    } else {
-        IpAddr::V4(Ipv4Addr::new(10, 0, (h >> 8) as u8, (h & 255) as u8))
+    src_ip(v6, 0, h)
+}
+
+/// Network-level source address of host `h` (before any canonicalisation).
+pub fn src_ip(v6: bool, ac: u8, h: u16) -> IpAddr {
+    if !v6 {
+        return IpAddr::V4(Ipv4Addr::new(10, 0, (h >> 8) as u8, (h & 255) as u8));
     }
+    match ac % 3 {
+        0 => IpAddr::V6(Ipv6Addr::new(0x2001, 0xdb8, 0, 0, 0, 0, 1, h)),
+        1 => IpAddr::V6(Ipv6Addr::new(0, 0, 0, 0, 0, 0, 0x0a00, h.wrapping_add(1))),
+        _ => IpAddr::V6(Ipv6Addr::new(0, 0, 0, 0, 0, 0xffff, 0x0a00, h)),
+    }
+}
+
+/// Independent canonicalisation: only ::ffff:a.b.c.d is the embedded IPv4 address.
+pub fn canon_ip(ip: IpAddr) -> IpAddr {
+    if let IpAddr::V6(a) = ip {
+        let o = a.octets();
+        if o[..10].iter().all(|b| *b == 0) && o[10] == 0xff && o[11] == 0xff {
+            return IpAddr::V4(Ipv4Addr::new(o[12], o[13], o[14], o[15]));
+        }
+    }
+    ip
 }
 
 pub fn peer_id(p: u8) -> [u8; 20] {
@@ -100,7 +121,7 @@ impl UdpStore {
             let t = r.below(n_torrents as u64) as u8;
             let v6 = r.chance(500);
             for h in 0..size {
-                ops.push(Op::Ann { t, v6, h: 100 + h, port: 2000, ev: 1, left: if r.chance(300) { 0 } else { 5 }, want: 0, pid: (h % 200) as u8 });
+                ops.push(Op::Ann { t, v6, ac: 0, h: 100 + h, port: 2000, ev: 1, left: if r.chance(300) { 0 } else { 5 }, want: 0, pid: (h % 200) as u8 });
             }
             deadlines.push(now + max_age as u64);
         }
@@ -132,6 +153,7 @@ impl UdpStore {
                     ops.push(Op::Ann {
                         t: r.below(n_torrents as u64) as u8,
                         v6: r.chance(400),
+                        ac: if r.chance(700) { 0 } else { r.range(1, 2) as u8 },
                         h: r.below(n_hosts as u64) as u16,
                         port: *r.pick(&ports),
                         ev,
@@ -146,7 +168,7 @@ impl UdpStore {
                 1 => {
                     let n = r.range(0, 6) as usize;
                     let ts = (0..n).map(|_| r.below(n_torrents as u64 + 2) as u8).collect();
-                    ops.push(Op::Scr { v6: r.chance(400), ts });
+                    ops.push(Op::Scr { v6: r.chance(400), ac: if r.chance(700) { 0 } else { r.range(1, 2) as u8 }, ts });
                 }
                 2 => ops.push(Op::Clean),
                 _ => {
@@ -275,11 +297,19 @@ impl<'a> Exec<'a> {
         }
     }
 
-    fn do_announce(&mut self, t: u8, v6: bool, h: u16, port: u16, ev: u8, left: i64, want: i32, pid: u8, stats: &mut Stats, probe: bool) {
+    #[allow(clippy::too_many_arguments)]
+    fn do_announce(&mut self, t: u8, v6: bool, ac: u8, h: u16, port: u16, ev: u8, left: i64, want: i32, pid: u8, stats: &mut Stats, probe: bool) {
         let ih = info_hash(t);
-        let ip = host_ip(v6, h);
+        let raw_ip = src_ip(v6, ac, h);
+        let ip = canon_ip(raw_ip);
+        let v6 = ip.is_ipv6();
         let fam = if v6 { Fam::V6 } else { Fam::V4 };
         let key: Key = (ip, port);
+        if raw_ip != ip {
+            stats.probe("ipv4-mapped-source");
+        } else if matches!(raw_ip, IpAddr::V6(a) if a.octets()[..12].iter().all(|b| *b == 0)) {
+            stats.probe("low-ipv6-source");
+        }
         let event = event_of(ev);
         let stopped = event == AnnounceEvent::Stopped;
         let seeder = left == 0;
@@ -302,7 +332,7 @@ impl<'a> Exec<'a> {
             peers_wanted: NumberOfPeers::new(want),
             port: Port::new(NonZeroU16::new(port).unwrap()),
         };
-        let src = CanonicalSocketAddr::new(SocketAddr::new(ip, 1024 + (h % 50000)));
+        let src = CanonicalSocketAddr::new(SocketAddr::new(raw_ip, 1024 + (h % 50000)));
         let size_before = self.model.size(fam, &ih);
         let start = self.start;
         let age = self.scn.max_peer_age;
@@ -347,7 +377,7 @@ impl<'a> Exec<'a> {
             (Response::AnnounceIpv4(r), false) => (r.fixed, r.peers.iter().map(|p| (IpAddr::V4(Ipv4Addr::from(p.ip_address.0)), p.port.0.get())).collect()),
             (Response::AnnounceIpv6(r), true) => (r.fixed, r.peers.iter().map(|p| (IpAddr::V6(Ipv6Addr::from(p.ip_address.0)), p.port.0.get())).collect()),
             _ => {
-                self.fail(&["C01", "C06"], "announce-reply-kind", "wrong-family", format!("announce from {:?} answered with the other family's reply kind", ip));
+                self.fail(&["C01", "C03", "C06"], "announce-reply-kind", "wrong-family", format!("announce from source {:?} (canonical {:?}) answered with the other family's reply kind", raw_ip, ip));
                 return;
             }
         };
@@ -415,11 +445,12 @@ impl<'a> Exec<'a> {
         self.check_tally("after announce");
     }
 
-    fn do_scrape(&mut self, v6: bool, ts: &[u8], stats: &mut Stats, props: &[&str], check: &str) {
-        let fam = if v6 { Fam::V6 } else { Fam::V4 };
+    fn do_scrape(&mut self, v6: bool, ac: u8, ts: &[u8], stats: &mut Stats, props: &[&str], check: &str) {
+        let raw_ip = src_ip(v6, ac, 999);
+        let fam = Fam::of(&canon_ip(raw_ip));
         self.txid = self.txid.wrapping_add(1);
         let req = ScrapeRequest { connection_id: ConnectionId::new(0), transaction_id: TransactionId::new(self.txid), info_hashes: ts.iter().map(|t| InfoHash(info_hash(*t))).collect() };
-        let src = CanonicalSocketAddr::new(SocketAddr::new(host_ip(v6, 999), 5000));
+        let src = CanonicalSocketAddr::new(SocketAddr::new(raw_ip, 5000));
         let resp = self.maps.scrape(req, src);
         stats.evaluations += 1;
         if resp.torrent_stats.len() != ts.len() {
@@ -454,8 +485,8 @@ impl<'a> Exec<'a> {
         let ts = self.all_torrents();
         // consistent before?
         let before = self.violations.len();
-        self.do_scrape(false, &ts, stats, &["C01"], "scrape-counts");
-        self.do_scrape(true, &ts, stats, &["C01"], "scrape-counts");
+        self.do_scrape(false, 0, &ts, stats, &["C01"], "scrape-counts");
+        self.do_scrape(true, 0, &ts, stats, &["C01"], "scrape-counts");
         if self.violations.len() > before {
             return;
         }
@@ -534,22 +565,23 @@ impl<'a> Exec<'a> {
             }
         }
         // a clean must not change anything but expiry / access list: post-clean state == model
-        self.do_scrape(false, &ts, stats, &["C10", "C01"], "state-after-clean");
-        self.do_scrape(true, &ts, stats, &["C10", "C01"], "state-after-clean");
+        self.do_scrape(false, 0, &ts, stats, &["C10", "C01"], "state-after-clean");
+        self.do_scrape(true, 1, &ts, stats, &["C10", "C01"], "state-after-clean");
     }
 
     /// quiescent sweep: every torrent is scraped; a fresh peer announces and stops on each
     fn sweep(&mut self, stats: &mut Stats) {
         let ts = self.all_torrents();
-        self.do_scrape(false, &ts, stats, &["C01"], "final-scrape");
-        self.do_scrape(true, &ts, stats, &["C01"], "final-scrape");
+        self.do_scrape(false, 0, &ts, stats, &["C01"], "final-scrape");
+        self.do_scrape(true, 2, &ts, stats, &["C01"], "final-scrape");
+        self.do_scrape(true, 1, &ts, stats, &["C01"], "final-scrape");
         for t in ts {
             for v6 in [false, true] {
                 if !self.violations.is_empty() {
                     return;
                 }
-                self.do_announce(t, v6, 60000, 9, 1, 1, i32::MAX, 250, stats, true);
-                self.do_announce(t, v6, 60000, 9, 3, 1, 0, 250, stats, true);
+                self.do_announce(t, v6, 0, 60000, 9, 1, 1, i32::MAX, 250, stats, true);
+                self.do_announce(t, v6, 0, 60000, 9, 3, 1, 0, 250, stats, true);
             }
         }
     }
@@ -619,15 +651,15 @@ impl Harness for UdpStore {
                 break;
             }
             match op {
-                Op::Ann { t, v6, h, port, ev, left, want, pid } => {
+                Op::Ann { t, v6, ac, h, port, ev, left, want, pid } => {
                     // the access-list gate sits in the socket worker; mimic it so that the
                     // store never sees forbidden announces (as in the real tracker)
                     if !ex.allowed(&info_hash(*t)) {
                         continue;
                     }
-                    ex.do_announce(*t, *v6, *h, (*port).max(1), *ev, *left, *want, *pid, stats, false)
+                    ex.do_announce(*t, *v6, *ac, *h, (*port).max(1), *ev, *left, *want, *pid, stats, false)
                 }
-                Op::Scr { v6, ts } => ex.do_scrape(*v6, ts, stats, &["C01"], "scrape-counts"),
+                Op::Scr { v6, ac, ts } => ex.do_scrape(*v6, *ac, ts, stats, &["C01"], "scrape-counts"),
                 Op::Clean => ex.do_clean(stats),
                 Op::Adv { secs } => {
                     let n = time::manual_ns() / 1_000_000_000 + secs;
@@ -666,29 +698,34 @@ impl Harness for UdpStore {
             s.peer_clients = false;
             out.push(s);
         }
+        if scn.ops.iter().any(|o| matches!(o, Op::Ann { v6: true, .. } | Op::Scr { v6: true, .. })) {
+            let mut s = scn.clone();
+            for o in s.ops.iter_mut() {
+                match o {
+                    Op::Ann { v6, .. } => *v6 = false,
+                    Op::Scr { v6, .. } => *v6 = false,
+                    _ => {}
+                }
+            }
+            out.push(s);
+        }
         // simplify single operations
         for (i, op) in scn.ops.iter().enumerate() {
             match op {
-                Op::Ann { t, v6, h, port, ev, left, want, pid } => {
+                Op::Ann { t, v6, ac, h, port, ev, left, want, pid } => {
                     if *want != 0 {
                         let mut s = scn.clone();
-                        s.ops[i] = Op::Ann { t: *t, v6: *v6, h: *h, port: *port, ev: *ev, left: *left, want: 0, pid: *pid };
+                        s.ops[i] = Op::Ann { t: *t, v6: *v6, ac: *ac, h: *h, port: *port, ev: *ev, left: *left, want: 0, pid: *pid };
                         out.push(s);
                     }
                     if *left != 0 && *left != 1 {
                         let mut s = scn.clone();
-                        s.ops[i] = Op::Ann { t: *t, v6: *v6, h: *h, port: *port, ev: *ev, left: 1, want: *want, pid: *pid };
+                        s.ops[i] = Op::Ann { t: *t, v6: *v6, ac: *ac, h: *h, port: *port, ev: *ev, left: 1, want: *want, pid: *pid };
                         out.push(s);
                     }
-                    if *v6 {
+                    if *ac != 0 {
                         let mut s = scn.clone();
-                        for o in s.ops.iter_mut() {
-                            match o {
-                                Op::Ann { v6, .. } => *v6 = false,
-                                Op::Scr { v6, .. } => *v6 = false,
-                                _ => {}
-                            }
-                        }
+                        s.ops[i] = Op::Ann { t: *t, v6: *v6, ac: 0, h: *h, port: *port, ev: *ev, left: *left, want: *want, pid: *pid };
                         out.push(s);
                     }
                 }
@@ -700,9 +737,9 @@ impl Harness for UdpStore {
                     s.ops[i] = Op::Adv { secs: secs - 1 };
                     out.push(s);
                 }
-                Op::Scr { v6, ts } if ts.len() > 1 => {
+                Op::Scr { v6, ac, ts } if ts.len() > 1 => {
                     let mut s = scn.clone();
-                    s.ops[i] = Op::Scr { v6: *v6, ts: ts[..1].to_vec() };
+                    s.ops[i] = Op::Scr { v6: *v6, ac: *ac, ts: ts[..1].to_vec() };
                     out.push(s);
                 }
                 _ => {}
